@@ -71,6 +71,11 @@ CLAIMED.update({
          "DESIGN.md §3.3, §4 C16", "deterministic simulation: controlled thread scheduler, history checks over a totally ordered event log", SCHED_NOTE),
 })
 
+CLAIMED["C19"] = ("seq", "fault_enumeration",
+         "Seeded write histories through the real metric log writer (size and date roll-over, retention) under the virtual clock; exhaustive query windows on the uncrashed directory for fresh and reused searchers; then fault enumeration: the libc-level operation log (every create, unlink and written byte in program order) is cut at EVERY crash point of each sampled history, each prefix materialised as a directory and searched (no panic, complete+indexed items returned in order, at most the single torn last line lost or misread). All crash points of each sampled history are enumerated; histories are sampled.",
+         "DESIGN.md §4 C19 / appendix A.6", "deterministic simulation with crash-point enumeration over a recorded libc-level write/create/unlink log",
+         SEQ_NOTE + " Crash model as stated by the property: the surviving files are a prefix, in program order, of what the writer issued (no page-cache reordering); crash states are synthesised from the recorded operation log, whose fidelity is self-checked against the real directory at the end of every history.")
+
 NOT_APPLICABLE = {
  "C13": "pure function of (chain shape, order values, scripted slot results): no clock, schedule, fault or surviving state for a simulator to own (DESIGN.md §5)",
  "C18": "pure functions value <-> bytes; truncated documents are inputs, not faults at an instant; nothing for a scheduler, clock or fault injector to decide (DESIGN.md §5)",
